@@ -149,6 +149,19 @@ def body_cli(case, rec):
         mp.write_text(remap.map_agp_text(case))
         out = d / "out" / "x.1.fa"
         out.parent.mkdir()
+        if case.get("repeated_record"):
+            # the FASTA holds a second record with the name of the one before it: such a file is refused - by the
+            # first run and by a second run that may find index files - or else what is written has to be right
+            last = case["fasta"]["records"][-1]
+            with src.open("ab") as fh:
+                fh.write(gen.fasta_bytes({"records": [[last[0], "", "ACGTTGCAAC" * 7, 60, "\n"]], "final_newline": True}))
+            codes = []
+            for _ in range(2):
+                res = remap.run_cli_inprocess(["-a", src, "-p", mp, "-o", out], fasta_buffer=case.get("fasta_buffer"))
+                codes.append(res.exit_code)
+            if all(codes):
+                rec.note(case, True, {"repeated_record_name_refused"})
+                return
         res = remap.run_cli_inprocess(["-a", src, "-p", mp, "-o", out], fasta_buffer=case.get("fasta_buffer"))
         if res.exit_code != 0:
             raise Violation(f"pretext-to-asm failed on a model map: exit {res.exit_code} {type(res.exception).__name__}: {res.exception}")
@@ -263,6 +276,8 @@ def cli_cases(draw):
     stale = draw(st.sampled_from([None, None, None, "equal", "older"]))
     if stale:
         case["stale_cache"] = stale
+    elif f["final_newline"] and draw(st.integers(0, 7)) == 0:
+        case["repeated_record"] = True
     return case
 
 
